@@ -1080,7 +1080,7 @@ static int sp_dgemv(char tA, int m, int n, number alpha, void *a, int oA,
   int absiy = (iy > 0 ? iy : -iy);
   scal[A->id]((tA == 'N' ? &m : &n), &beta, Y, &absiy);
 
-  if (!m) return 0;
+  if (!m || !n) return 0;
   int i, j, k, oi = oA % A->nrows, oj = oA / A->nrows;
 
   if (tA == 'N') {
@@ -1120,7 +1120,7 @@ static int sp_zgemv(char tA, int m, int n, number alpha, void *a, int oA,
   int absiy = (iy > 0 ? iy : -iy);
   scal[A->id]((tA == 'N' ? &m : &n), &beta, Y, &absiy);
 
-  if (!m) return 0;
+  if (!m || !n) return 0;
   int i, j, k, oi = oA % A->nrows, oj = oA / A->nrows;
 
   if (tA == 'N') {
